@@ -8,9 +8,10 @@ TRUSTED = [
     "Model/RRuleStr.lean is a hand model of rrule.__str__ and of _rrulestr._parse_rfc/_parse_rfc_rrule/_handle_* at the level of the keyword arguments handed to rrule()/rruleset; tied by the rrs.str / rrs.parse correspondence ops (the implementation's constructor calls are recorded in-process)",
     "date values go through parser.parse in the real code (C02); the model covers only the compact form YYYYMMDDTHHMMSS[Z] that __str__ emits — other spellings are compared on the implementation only",
     "rrule(**kwargs) itself is C01's constructor; 'same kwargs => same occurrences' is determinism of C01's model",
-    "TZID resolution is modelled (tzidOf: name table from the text as written, case-insensitive, after the optional unfold; tzids lookup) and compared in the correspondence through a tzids callable that remembers the looked-up name; no theorem is stated about it; what ignoretz / tzinfos do inside parser.parse is C02",
+    "TZID resolution (the pre-scan, the name table, the parameter loop of _parse_date_value, the zone attach) and the unfold loop are re-translated from source on every run (harness/translate_str.py -> Generated/RRuleStrKernels.lean) and tied to the hand model by gen_prefix_eq_model / gen_unfold_loop_eq_model / gen_dateParms_eq_model; the translation is run (ops rrsgen.*) against the very statements it was made from, compiled from the same AST nodes",
+    "Model/StrPy.lean's regular expressions are a deterministic matcher for three item shapes; the translator accepts a pattern only when Python's backtracking matcher cannot differ from it (optional character followed by a different literal; [^..]+ followed by a class it excludes), parsed with Python's own re parser; what ignoretz / tzinfos do inside parser.parse is C02",
     "str_roundtrip_rule takes the two date values over unchanged (backArgs): parser.parse reading the compact text back is C02, tied by correspondence and oracle only; compact_roundtrip is about the driver's display helper",
-    "the unfold loop (ICal.unfold, shared with C17) and RDATE/EXDATE/DTSTART parameters are in the model and the correspondence but no theorem is stated about them; multi_line_builds_set is for parameter-less lines joined by newlines without unfold",
+    "RDATE/EXDATE/DTSTART line dispatch is hand-modelled (correspondence); multi_line_builds_set is for parameter-less lines joined by newlines without unfold; unfold_fold is about the unfold path",
 ]
 ASSUMPTIONS = [
     "the theorems str_roundtrip* / str_roundtrip_rule are about calendar.firstweekday() == 0 (the interpreter's default); str_roundtrip_rule_ambient states the ambient value explicitly (every k, no hypothesis on the week start since the repair of D-C13-ambient-wkst) and str_roundtrip_rule_cross_ambient a different first weekday on the reading side; the oracle and the correspondence also run under setfirstweekday(0..6)",
